@@ -33,6 +33,8 @@ def run(ctx: Ctx):
     route_answer_discipline(ctx, "C09-R1")
     waiting_table_keys(ctx, "C09-R3")
     ready_constants(ctx, "C09-R2b")
+    from .common_node import ready_state_stores
+    ready_state_stores(ctx, "C09-R2c")
 
     # ---------------- R3b removal drops the host's table; send_message cleanup -------------
     ctx.rule("C09-R3b", "remove_peer_connection drops the removed host's pending table; "
@@ -63,7 +65,10 @@ def run(ctx: Ctx):
     ats = Atomizer(model, sm.module, nc)
     cons = "send_message:cleanup"
     ctx.inst(cons)
-    sdel = [n for n in gs.nodes if n.kind == "stmt" and any("_peer_waiting_answer" in ast.unparse(t) for t in n.deletes())]
+    sdel = [n for n in gs.nodes if n.kind == "stmt" and (
+        any("_peer_waiting_answer" in ast.unparse(t) for t in n.deletes())
+        or any(isinstance(c.func, ast.Attribute) and c.func.attr == "pop"
+               and "_peer_waiting_answer" in ast.unparse(c.func.value) for c in n.calls()))]
     mparam = [a.arg for a in sm.node.args.args][2]
     if not sdel or (f"{mparam}.header.is_request", "truthy", None, False) not in must_facts(gs, ats, sdel[0]):
         ctx.fail(cons, sm.loc(), "send_message does not clean the pending record of an answer sent "
